@@ -3,7 +3,7 @@
    on the observation; 2 the oracle fails on the observation and the (fixed-code) model differs;
    3 the oracle fails and the model of the UNFIXED code (metrics/HistOld.v, LzcntOld.v) reproduces
    the observation exactly. *)
-From Coq Require Import FMapPositive.
+From Coq Require Import FMapPositive Uint63.
 From Rend Require Import base.Bytes base.Harness gen.Consts_gen gen.Tables_gen.
 From Rend Require Import metrics.Lzcnt metrics.LzcntOld metrics.Bucket metrics.Hist metrics.HistOld metrics.Counter.
 Open Scope N_scope.
@@ -45,9 +45,11 @@ Inductive case18 :=
 | CVal (x b lza lzp : N)
 (* n <= m with their buckets *)
 | CMono (n bn m bm : N)
-(* many values at once, in increasing order: (x, getBucket x, assembly lzcnt x, portable lzcnt x);
-   every value is judged as by CVal, every adjacent pair as by CMono; the worst code is returned *)
-| CBatch (l : list (N * N * N * N))
+(* many values at once, in increasing order, as a flat list of primitive integers (they parse two
+   orders of magnitude faster than N literals): five per value — x / 2^32, x mod 2^32, getBucket x,
+   assembly lzcnt x, portable lzcnt x.  Every value is judged as by CVal, every adjacent pair as
+   by CMono; the worst code is returned *)
+| CBatch (l : list int)
 (* consecutive periods on one histogram, run by one goroutine.
    http = false: read through VerifExtractHist (count, kept, total, min, max, 23 values; whether the
                  endpoint would print them is not visible);
@@ -170,13 +172,17 @@ Definition check_mono (n bn m bm : N) : N :=
     (if (bn =? getBucket n) && (bm =? getBucket m) then 0 else 1)
   else 2.
 
-Fixpoint check_batch (prev : option (N * N)) (l : list (N * N * N * N)) (worst : N) : N :=
+Definition nat_of_int (i : int) : N := Z.to_N (Uint63.to_Z i).
+Fixpoint check_batch (prev : option (N * N)) (l : list int) (worst : N) : N :=
   match l with
-  | [] => worst
-  | (x, b, lza, lzp) :: r =>
-      let c1 := check_val x b lza lzp in
+  | hi :: lo :: b :: lza :: lzp :: r =>
+      let x := nat_of_int hi * 4294967296 + nat_of_int lo in
+      let b := nat_of_int b in
+      let c1 := check_val x b (nat_of_int lza) (nat_of_int lzp) in
       let c2 := match prev with Some (n, bn) => check_mono n bn x b | None => 0 end in
       check_batch (Some (x, b)) r (N.max worst (N.max c1 c2))
+  | [] => worst
+  | _ => 1          (* malformed batch *)
   end.
 
 Definition check_counter (before : N) (adds : list (list N)) (after : N) : N :=
